@@ -130,6 +130,15 @@ func c3ArmSSA(c *Ctx, fn *ssa.Function, kv int64) *armInfo {
 		return a
 	}
 	seenCall := map[string]bool{}
+	// helpers that unpack on the arm's behalf (they take the Field itself) are explored inline
+	takesField := func(h *ssa.Function) bool {
+		for _, p := range h.Params {
+			if isField(p.Type()) {
+				return true
+			}
+		}
+		return false
+	}
 	seqs, trunc := ConcPaths(fn, ConcCfg{
 		Conc: func(d string) (int64, bool) {
 			if d == rn+".Type" {
@@ -137,15 +146,7 @@ func c3ArmSSA(c *Ctx, fn *ssa.Function, kv int64) *armInfo {
 			}
 			return 0, false
 		},
-		Inline: func(h *ssa.Function) bool {
-			// helpers that unpack on the arm's behalf: they take the Field itself
-			for _, p := range h.Params {
-				if isField(p.Type()) {
-					return true
-				}
-			}
-			return false
-		},
+		Inline: takesField,
 		Branch: func(cond ssa.Value, taken bool, st *ConcState) string {
 			chain(st, cond, 0)
 			return ""
@@ -159,6 +160,9 @@ func c3ArmSSA(c *Ctx, fn *ssa.Function, kv int64) *armInfo {
 			case *ssa.Call:
 				if _, isB := x.Call.Value.(*ssa.Builtin); isB {
 					return ""
+				}
+				if h := helperOf(x); h != nil && takesField(h) {
+					return "" // explored inline: what it does shows up as its own calls
 				}
 				ac := armCall{pos: x.Pos()}
 				if x.Call.IsInvoke() {
